@@ -34,6 +34,10 @@ type c16Case struct {
 	// FileExt: written and read through the file-level helpers (Write / OpenFile) under this extension instead of the
 	// format's writer and reader
 	FileExt string `json:"file_ext,omitempty"`
+	// IgnoreTCP (STL with a programme start): the file is read back with the option that ignores the programme start:
+	// the cues come back at their absolute timecodes, the list has no programme start, and a second write renders the
+	// same timecodes
+	IgnoreTCP bool `json:"ignore_tcp,omitempty"`
 }
 
 // ceilNs is the instant a reader assigns to u units of 1/perSecond s (rounded up to the next nanosecond).
@@ -77,8 +81,13 @@ func checkC16(c c16Case) string {
 	s := astisub.NewSubtitles()
 	for i := 0; i < n; i++ {
 		s.Items = append(s.Items, &astisub.Item{StartAt: time.Duration(c.Instants[2*i]), EndAt: time.Duration(c.Instants[2*i+1]), Lines: []astisub.Line{{Items: []astisub.LineItem{{Text: "x"}}}}})
-		if c.Text > 0 && i%3 == 1 {
+		if c.Text > 0 && c.Text <= 3 && i%3 == 1 {
 			s.Items[i].Lines = [][]astisub.Line{nil, {{Items: []astisub.LineItem{{Text: ""}}}}, {{Items: []astisub.LineItem{{Text: " "}}}}}[c.Text-1]
+		}
+		if c.Text == 4 && i%3 == 1 {
+			// a run carrying an inline timestamp (WebVTT) that lies after the cue's end, and one before its start: the
+			// cue's boundaries are the cue's
+			s.Items[i].Lines = []astisub.Line{{Items: []astisub.LineItem{{Text: "x", StartAt: s.Items[i].EndAt + 1500*time.Millisecond}, {Text: "y", StartAt: time.Millisecond}}}}
 		}
 	}
 	restore := astisub.Now
@@ -117,7 +126,7 @@ func checkC16(c c16Case) string {
 		s.Metadata = &astisub.Metadata{Framerate: int(perSecond), STLDisplayStandardCode: "0", STLTimecodeStartOfProgramme: time.Duration(ceilNs(c.TCPUnits, perSecond))}
 		write = func(s *astisub.Subtitles, b *bytes.Buffer) error { return s.WriteToSTL(b) }
 		read = func(b []byte) (*astisub.Subtitles, error) {
-			return astisub.ReadFromSTL(bytes.NewReader(b), astisub.STLOptions{})
+			return astisub.ReadFromSTL(bytes.NewReader(b), astisub.STLOptions{IgnoreTimecodeStartOfProgramme: c.IgnoreTCP})
 		}
 	default:
 		return "unknown format " + c.Format
@@ -256,6 +265,9 @@ func checkC16(c c16Case) string {
 	for i, it := range s2.Items {
 		for k, got := range []int64{int64(it.StartAt), int64(it.EndAt)} {
 			u := rendered[2*i+k] - c.TCPUnits
+			if c.IgnoreTCP {
+				u = rendered[2*i+k]
+			}
 			// exact value of the rendering in ns: u / perSecond seconds
 			lo := u / perSecond * 1_000_000_000
 			rem := u % perSecond * 1_000_000_000 // / perSecond
@@ -279,7 +291,11 @@ func checkC16(c c16Case) string {
 	if c.Format == "stl25" || c.Format == "stl30" {
 		// compare the timecodes (the GSI block legitimately differs: the reader fills metadata the first list did not have)
 		for i := 0; i < n; i++ {
-			if i == 0 && !bytes.Equal(out[256:272], o2[256:272]) {
+			if i == 0 && c.IgnoreTCP {
+				if string(o2[256:264]) != "00000000" || !bytes.Equal(out[264:272], o2[264:272]) {
+					return fmt.Sprintf("%s: the file read ignoring its programme start and written again has programme start / first in-cue %q, expected 00000000 and %q", c.Format, o2[256:272], out[264:272])
+				}
+			} else if i == 0 && !bytes.Equal(out[256:272], o2[256:272]) {
 				return fmt.Sprintf("%s: second write renders the programme start and first cue as %q, the first as %q", c.Format, o2[256:272], out[256:272])
 			}
 			a, b := out[1024+128*i+5:1024+128*i+13], o2[1024+128*i+5:1024+128*i+13]
@@ -287,7 +303,7 @@ func checkC16(c c16Case) string {
 				return fmt.Sprintf("%s: second write renders cue %d as %v, the first as %v (instants %d, %d ns)", c.Format, i, b, a, c.Instants[2*i], c.Instants[2*i+1])
 			}
 		}
-	} else if c.Text > 0 {
+	} else if c.Text > 0 && c.Text <= 3 {
 		// a cue that shows nothing may come back with another line structure (no line / one empty line): the timing
 		// lines of the second write are those of the first
 		if a, b := re.FindAll(out, -1), re.FindAll(o2, -1); !reflect.DeepEqual(a, b) {
@@ -427,6 +443,13 @@ func TestC16(t *testing.T) {
 					runBatch(t, format, short, tcp)
 					total += len(short)
 				}
+				ic := c16Case{Format: format, Instants: short[:len(short)/2*2], TCPUnits: 10*3600*rate + 5, IgnoreTCP: true}
+				if len(ic.Instants) > 2000 {
+					ic.Instants = ic.Instants[:2000]
+				}
+				ev.CaseH(true, mix(strHash(format), 994), "format-"+format, "read-back-ignoring-the-programme-start")
+				ev.AddEvals(len(ic.Instants) - 1)
+				verdict(t, "C16", "c16", ic, checkC16)
 			}
 			if format != "srt" {
 				// the same instants on lists that carry metadata unrelated to timing
@@ -434,7 +457,10 @@ func TestC16(t *testing.T) {
 				if len(short) > 4000 {
 					short = short[:4000]
 				}
-				for text := 1; text <= 3; text++ {
+				for text := 1; text <= 4; text++ {
+					if text == 4 && format != "vtt" {
+						continue
+					}
 					tc := c16Case{Format: format, Instants: short[:len(short)/2*2], Text: text}
 					if len(tc.Instants) > 600 {
 						tc.Instants = tc.Instants[:600]
@@ -557,6 +583,7 @@ func TestC16(t *testing.T) {
 				c.TCPUnits = rapid.Int64Range(1, 86400*rate-1).Draw(rt, "tcp")
 			}
 			ev.Label("stl-programme-start-nonzero")
+			c.IgnoreTCP = rapid.IntRange(0, 2).Draw(rt, "ignoretcp") == 0
 		}
 		if rapid.IntRange(0, 3).Draw(rt, "meta") == 0 {
 			c.Meta = rapid.IntRange(1, 3).Draw(rt, "metak")
